@@ -171,11 +171,15 @@ def run_room(ctx, rseed, mode, order=None):
     if set(sol.bs_poses.keys()) != set(rm['ids']):
         bad = ('lh:base-station-set-differs', {'got': sorted(sol.bs_poses), 'want': sorted(rm['ids'])})
     else:
+        bs_off = []
         for i in rm['ids']:
             Rb, tb = rm['bs'][i]
             et, er = pose_err(sol.bs_poses[i].rot_matrix, sol.bs_poses[i].translation, R0.T @ Rb, R0.T @ (tb - t0))
             ctx.count('mon.bs_poses_compared')
             worst_t, worst_r = max(worst_t, et), max(worst_r, er)
+            if not (et < 1e-3 and er < 1e-3):
+                bs_off.append({'id': i, 'translation_error_m': et, 'rotation_error_rad': er,
+                               'seen_in_samples': sum(1 for s_ in cleaned if i in s_.angles_calibrated)})
         if len(sol.cf_poses) != len(ks):
             bad = ('lh:cf-pose-count-differs', {'got': len(sol.cf_poses), 'want': len(ks)})
         else:
@@ -205,6 +209,14 @@ def run_room(ctx, rseed, mode, order=None):
         bad = ('lh:crazyflie-pose-seen-by-two-base-stations-left-in-its-mirror-orientation',
                dict(bad[1], poses_left_in_the_mirror_orientation=cf_off[:4], samples=len(matched)))
         ctx.count('mon.rooms_hit_by_the_mirror_orientation_finding')
+    if bad is not None and bad[0] == 'lh:pose-error-above-1mm-1mrad' and sol.success and len(cleaned) == len(matched) and \
+            len(matched) > 5 and bs_off and not cf_off and all(b_['seen_in_samples'] <= 2 for b_ in bs_off):
+        # third known finding: every Crazyflie pose and every other base station is right; the base stations that are off are
+        # seen in one or two samples only - nothing to vote on between their two IPPE solutions, the mirror one was taken
+        bad = ('lh:base-station-seen-in-one-or-two-samples-placed-at-its-mirror-pose',
+               dict(bad[1], base_stations_off=bs_off[:4], samples=len(matched)))
+        ctx.count('mon.other_rooms_hit_by_the_known_finding' if mode not in ('axis', 'chain') else
+                  {'axis': 'mon.axis_rooms_hit_by_the_known_finding', 'chain': 'mon.chain_rooms_hit_by_the_known_finding'}[mode])
     if bad is not None and bad[0] in ('lh:pose-error-above-1mm-1mrad', 'lh:base-station-set-differs') and \
             (len(matched) <= 5 or len(cleaned) < len(matched) or not sol.success):
         # poor initial estimate (known finding): the estimator's vote between the mirror IPPE solutions had too few
